@@ -752,6 +752,14 @@ func (env *SpecEnv) evalCall(x *SExpr) Val {
 			i, j, i, i, j, j, sv.Terms[0], sv.Terms[2], i, sv.Terms[2], j))
 	case "mapref":
 		return mkInt(t0(0))
+	case "strfn":
+		// application of a string->string function value (uninterpreted)
+		return mkStr(app("fn_app_ss", t0(0), t0(1)))
+	case "joined":
+		v := arg(0)
+		return mkStr(app("str_join", v.Terms[2], v.Terms[0], t0(1)))
+	case "repeat":
+		return mkStr(app("str_repeat", t0(0), t0(1)))
 	case "helptext":
 		env.st.eng.assumptionsUsed["helptext(node) names the text helpOutput(node) yields in the current definition state (assumed unchanged between the compared calls)"] = true
 		return mkStr(app("help_text", t0(0)))
